@@ -10,7 +10,7 @@ import translate_stagers
 from common import coq_list, parse_coq_value
 
 LEVEL = "proof"
-SETTINGS = [(25, 75, 50, 2), (25, 75, 50, 1.5), (125, 50, 25, 3), (1, 0, 0, 1), (3, 2, 0, 2), (10, 5, 5, 2.5), (7, 0, 3, 1.25)]
+SETTINGS = [(25, 75, 50, 2), (25, 75, 50, 1.5), (125, 50, 25, 3), (25, 100, 100, 2), (1, 0, 0, 1), (3, 2, 0, 2), (10, 5, 5, 2.5), (7, 0, 3, 1.25)]
 ADS = {"NoAd": 2, "All": 1, "Fast": 0}
 
 
@@ -36,7 +36,7 @@ def stager_correspondence(ctx, model_ok=True):
     from mici.stagers import WarmUpStager, WindowedWarmUpStager
     nmax = 260 if not ctx.thorough else 2500
     cases = []
-    for si, (s1, s2, s3, m) in enumerate(SETTINGS if ctx.thorough else SETTINGS[:5]):
+    for si, (s1, s2, s3, m) in enumerate(SETTINGS if ctx.thorough else SETTINGS[:6]):
         for n_warm in list(range(0, nmax)) + [int(x) for x in ctx.rng.integers(nmax, 30000, size=6)]:
             n_main = int(ctx.rng.choice([0, 5, 100]))
             ht, tw = bool(ctx.rng.random() < 0.7), bool(ctx.rng.random() < 0.5)
@@ -62,12 +62,19 @@ def stager_correspondence(ctx, model_ok=True):
         model = parse_coq_value(ctx.coq_eval(body, name="stager_cases")[0]) if model_ok else [None] * len(cases[i:i + 500])
         for (kind, st, n_warm, n_main, ht, tw), m in zip(cases[i:i + 500], model):
             stager = WarmUpStager() if kind == "warmup" else WindowedWarmUpStager(*st)
+            how = ""
+            if kind == "windowed" and (n_warm + n_main) % 3 == 0:
+                # the window sizes are public attributes: a stager whose sizes were assigned after construction behaves as one constructed with them
+                stager = WindowedWarmUpStager()
+                (stager.n_init_slow_window_iter, stager.n_init_fast_stage_iter, stager.n_final_fast_stage_iter, stager.slow_window_multiplier) = st
+                how = " (sizes assigned after construction)"
+                ctx.count("stager:windowed:attributes_reassigned")
             real = real_stages(stager, n_warm, n_main, ht, tw)
             ctx.case(("stager", kind, st, n_warm, n_main, ht, tw))
             ctx.count(f"stager:{kind}")
             if m is not None and [list(x) for x in m] != real:
                 bad += 1
-                ctx.fail("corr:stager", f"generated stager model and {type(stager).__name__}{st or ''}.stages({n_warm}, {n_main}) disagree: "
+                ctx.fail("corr:stager", f"generated stager model and {type(stager).__name__}{st or ''}{how}.stages({n_warm}, {n_main}) disagree: "
                          f"model {m} vs implementation {real}", {"stager": kind, "settings": st, "n_warm": n_warm, "n_main": n_main,
                                                                   "has_trace": ht, "trace_warm_up": tw, "model": m, "impl": real}, kind="corr")
             # direct oracle on the implementation: the partition property itself
@@ -80,7 +87,7 @@ def stager_correspondence(ctx, model_ok=True):
                 ok = ok and warm[0][1] == 0 and warm[-1][1] == 0 and all(x[1] == 1 for x in warm[1:-1])
             if not ok:
                 bad += 1
-                ctx.fail("partition", f"{type(stager).__name__}{st or ''}.stages({n_warm}, {n_main}, trace_warm_up={tw}) does not partition "
+                ctx.fail("partition", f"{type(stager).__name__}{st or ''}{how}.stages({n_warm}, {n_main}, trace_warm_up={tw}) does not partition "
                          f"the iterations: {real}", {"stager": kind, "settings": st, "n_warm": n_warm, "n_main": n_main, "stages": real})
     ctx.oblige(f"correspondence[stagers]: {len(cases)} (settings, n_warm, n_main, flags) cases, generated model vs stages() + direct partition oracle",
                bad == 0, f"{bad} failures")
